@@ -198,6 +198,20 @@ CHECKS = {
         "exactly from pins/C07.json.",
         "DESIGN.md section 5 C07",
     ),
+    "C10": (
+        "vmc/c10.py (E5 edit / fault injection)",
+        "fault_enumeration",
+        "exhaustive enumeration of single token edits of seed statements, corpus x dialect cross product, bracket nesting, unsupported-statement insertion positions; every accessor called, also after a failure",
+        "(a) every single edit (delete, duplicate, swap-adjacent, insert / replace by a letter of the alphabet) at every token of 22 short (quick) / 63 (thorough, incl. long) seeds "
+        "covering every extractor family and dialect-specific handler, under the seed's dialect and the sqlparse analyzer (+ ansi, + pairs of metacharacter edits in thorough); "
+        "(b) every corpus statement under 5 analyzers + its own (quick) / all 29 (thorough); (c) bracket nesting up to 30 at 4 positions; (d) every statement the library itself "
+        "declares unsupported, at every position of 1-3 supported statements, silent on/off, and texts with no statement at all. Outcome must be a result or a "
+        "SQLLineageException subclass for every accessor, also on a second access after a failure; unparsable text must be InvalidSyntaxException; silent mode = "
+        "warning + result of the script without the statement.",
+        "Trusted: sqlfluff as the judge of 'cannot parse'. A neighbourhood of valid SQL, not all strings. Known findings matched by call-site signature "
+        "(analyzer, exception class, innermost sqllineage frame) from known_findings.json.",
+        "DESIGN.md section 5 C10",
+    ),
 }
 
 NOT_YET = "check not built yet in this revision (planned in DESIGN.md section 5/11); not claimed"
